@@ -155,3 +155,203 @@ Proof.
     + constructor; [|exact I2]. unfold entry_fits. repeat split; try lia; assumption.
     + lia.
 Qed.
+
+(* ---- Snappy decoder: total, never out of range --------------------------------------------------------- *)
+
+Lemma sn_lit_len_len x t len t' :
+  sn_lit_len x t = Some (len, t') -> (length t' <= length t)%nat.
+Proof.
+  unfold sn_lit_len.
+  destruct (x <? 60); [intros E; inversion E; subst; lia|].
+  destruct (x =? 60); [destruct t as [|a t1]; intros E; inversion E; subst; simpl; lia|].
+  destruct (x =? 61); [destruct t as [|a [|b t1]]; intros E; inversion E; subst; simpl; lia|].
+  destruct (x =? 62); [destruct t as [|a [|b [|c t1]]]; intros E; inversion E; subst; simpl; lia|].
+  destruct t as [|a [|b [|c [|d t1]]]]; intros E; inversion E; subst; simpl; lia.
+Qed.
+
+Lemma sn_copy_args_len k tag t len off t' :
+  sn_copy_args k tag t = Some (len, off, t') -> (length t' <= length t)%nat.
+Proof.
+  unfold sn_copy_args.
+  destruct (k =? 1); [destruct t as [|a t1]; intros E; inversion E; subst; simpl; lia|].
+  destruct (k =? 2); [destruct t as [|a [|b t1]]; intros E; inversion E; subst; simpl; lia|].
+  destruct t as [|a [|b [|c [|d t1]]]]; intros E; inversion E; subst; simpl; lia.
+Qed.
+
+Lemma sn_copy_back_some n : forall off1 rout,
+  (off1 < length rout)%nat ->
+  exists r, sn_copy_back n off1 rout = Some r /\ length r = (n + length rout)%nat.
+Proof.
+  induction n as [|n IH]; intros off1 rout H; simpl.
+  - eauto.
+  - destruct (nth_error rout off1) eqn:E.
+    + destruct (IH off1 (n0 :: rout)) as (r & -> & L); [simpl; lia|].
+      eexists; split; [reflexivity|]. simpl in L. lia.
+    + apply nth_error_None in E. lia.
+Qed.
+
+Definition sn_good (r : sn_result) : Prop :=
+  match r with SnPanic | SnOutOfFuel => False | _ => True end.
+
+Lemma sn_loop_good fuel : forall dlen d rout src,
+  (length src < fuel)%nat -> d = lenN rout -> sn_good (sn_loop fuel dlen d rout src).
+Proof.
+  induction fuel as [|f IH]; intros dlen d rout src Hf Hd; [lia|].
+  cbn [sn_loop]. destruct src as [|tag t].
+  - destruct (d =? dlen); exact I.
+  - cbv zeta. destruct (N.land tag 3 =? 0).
+    + destruct (sn_lit_len (N.shiftr tag 2) t) as [[len t']|] eqn:E; [|exact I].
+      apply sn_lit_len_len in E.
+      destruct ((dlen - d <? len) || (lenN t' <? len)) eqn:C; [exact I|].
+      apply orb_false_iff in C as [C1 C2]. apply N.ltb_ge in C2. unfold lenN in C2.
+      apply IH.
+      * rewrite skipn_length. simpl in Hf. lia.
+      * subst d. unfold lenN. rewrite rev_append_rev, app_length, rev_length, firstn_length. lia.
+    + destruct (sn_copy_args (N.land tag 3) tag t) as [[[len off] t']|] eqn:E; [|exact I].
+      apply sn_copy_args_len in E.
+      destruct ((off =? 0) || (d <? off) || (dlen - d <? len)) eqn:C; [exact I|].
+      apply orb_false_iff in C as [C C3]. apply orb_false_iff in C as [C1 C2].
+      apply N.eqb_neq in C1. apply N.ltb_ge in C2.
+      destruct (sn_copy_back_some (N.to_nat len) (N.to_nat (off - 1)) rout) as (r & -> & L).
+      { subst d. unfold lenN in C2. lia. }
+      apply IH; [simpl in Hf; lia|]. subst d. unfold lenN in *. lia.
+Qed.
+
+Lemma snappy_decode_good src : sn_good (snappy_decode src).
+Proof.
+  unfold snappy_decode. destruct (sn_decoded_len src) as [[dl body]|]; [|exact I].
+  apply sn_loop_good; [lia|reflexivity].
+Qed.
+
+(* ---- ParseBlock / readNextBlock ------------------------------------------------------------------------------ *)
+
+Lemma parse_block_good pol h comp : good (fst (parse_block pol h comp)).
+Proof.
+  unfold parse_block.
+  destruct (negb (crc32 comp =? bh_crc h)); [exact I|].
+  destruct (sn_decoded_len comp) as [[dl body]|]; [|exact I].
+  destruct (p_sn_bound pol && _); [exact I|].
+  pose proof (snappy_decode_good comp) as G.
+  destruct (snappy_decode comp) as [unc| | |]; simpl in G; try contradiction; cbn [sn_to_res fst]; try exact I.
+  destruct (negb (lenN unc =? bh_usize h)); [exact I|].
+  pose proof (parse_entries_spec (N.to_nat (bh_count h)) unc 0) as S.
+  destruct (parse_entries (N.to_nat (bh_count h)) unc 0); cbn [fst]; try exact I; apply S; lia.
+Qed.
+
+Definition step_good (len : nat) (s : step) : Prop :=
+  match s with
+  | StPanic | StFuel => False
+  | StBlock _ rest' => (length rest' + 16 <= len)%nat
+  | _ => True
+  end.
+
+Lemma tail_class_good n b : step_good n (tail_class b).
+Proof. destruct b; exact I. Qed.
+
+Lemma next_block_ne_good pol rest : step_good (length rest) (fst (next_block_ne pol rest)).
+Proof.
+  unfold next_block_ne. cbv zeta.
+  destruct (lenN rest <? block_header_size) eqn:L; [apply tail_class_good|].
+  apply N.ltb_ge in L. unfold block_header_size in *.
+  destruct (slice_ok rest 0 16) as (hb & -> & Lh & _); try lia. cbn [bind].
+  destruct (bhdr_deserialize_ok hb) as (h & ->); [unfold block_header_size; lia|].
+  destruct (lenN rest - 16 <? bh_csize h) eqn:S.
+  - destruct (p_bound_first pol); cbn [andb fst]; apply tail_class_good.
+  - rewrite andb_false_r. apply N.ltb_ge in S.
+    destruct (slice_ok rest 16 (16 + bh_csize h)) as (comp & -> & _); try lia.
+    pose proof (parse_block_good pol h comp) as G.
+    destruct (parse_block pol h comp) as [r plog]. cbn [fst] in *.
+    destruct r; simpl in G; try contradiction; cbn [fst step_good]; try exact I.
+    rewrite skipn_length. unfold lenN in *. lia.
+Qed.
+
+Lemma next_block_good pol rest : step_good (length rest) (fst (next_block pol rest)).
+Proof.
+  unfold next_block. destruct rest; [exact I|]. apply next_block_ne_good.
+Qed.
+
+Lemma read_blocks_good pol fuel : forall rest,
+  (length rest < 16 * fuel)%nat -> good (fst (read_blocks pol fuel rest)).
+Proof.
+  induction fuel as [|f IH]; intros rest H; [lia|].
+  cbn [read_blocks].
+  pose proof (next_block_good pol rest) as G.
+  destruct (next_block pol rest) as [st log]. cbn [fst] in G.
+  destruct st; simpl in G; try contradiction; cbn [fst]; try exact I.
+  specialize (IH rest' ltac:(lia)).
+  destruct (read_blocks pol f rest') as [r log']. cbn [fst] in *.
+  destruct r; simpl in *; auto.
+Qed.
+
+Lemma blocks_fuel_enough rest : (length rest < 16 * blocks_fuel rest)%nat.
+Proof.
+  unfold blocks_fuel.
+  pose proof (Nat.div_mod (length rest) 16 ltac:(lia)).
+  pose proof (Nat.mod_upper_bound (length rest) 16 ltac:(lia)). lia.
+Qed.
+
+Lemma skipN_length n l : (length (skipN n l) <= length l)%nat.
+Proof.
+  unfold skipN. destruct (lenN l <=? n); [simpl; lia|]. rewrite skipn_length. lia.
+Qed.
+
+Lemma blocks_fuel_mono a b : (length a <= length b)%nat -> (blocks_fuel a <= blocks_fuel b)%nat.
+Proof.
+  intros H. unfold blocks_fuel.
+  pose proof (Nat.div_le_mono (length a) (length b) 16 ltac:(lia) H). lia.
+Qed.
+
+Lemma read_blocks_good_le pol fuel rest :
+  (blocks_fuel rest <= fuel)%nat -> good (fst (read_blocks pol fuel rest)).
+Proof.
+  intros H. apply read_blocks_good. pose proof (blocks_fuel_enough rest). lia.
+Qed.
+
+(* C04_total: NewFileReader + LoadIndex on ANY byte string, under ANY tail policy / code
+   version, neither runs out of fuel (the block loop consumes >= 16 bytes per iteration, so
+   len/16 + 2 iterations suffice: "never hangs") nor reaches an out-of-range slice or index
+   ("never panics"). *)
+Theorem read_file_total pol b : good (fst (read_file_bytes pol b)).
+Proof.
+  unfold read_file_bytes, read_file_fuel.
+  pose proof (new_file_reader_good b) as G.
+  destruct (new_file_reader b) as [o log0]. cbn [fst] in G.
+  destruct o as [op| | |]; simpl in G; try contradiction; cbn [fst]; try exact I.
+  pose proof (read_blocks_good_le pol (blocks_fuel b) (skipN (data_start_offset (o_hdr op)) b)) as R.
+  destruct (read_blocks pol (blocks_fuel b) (skipN (data_start_offset (o_hdr op)) b)) as [r log1].
+  cbn [fst] in R.
+  assert (good r) as Gr by (apply R, blocks_fuel_mono, skipN_length).
+  destruct r; simpl in Gr; try contradiction; exact I.
+Qed.
+
+Lemma scan_loop_good fuel : forall rest bc ec us,
+  (length rest < 16 * fuel)%nat -> good (scan_loop fuel rest bc ec us).
+Proof.
+  induction fuel as [|f IH]; intros rest bc ec us H; [lia|].
+  cbn [scan_loop].
+  destruct (lenN rest <? block_header_size) eqn:L; [exact I|].
+  apply N.ltb_ge in L. unfold block_header_size in *.
+  destruct (slice_ok rest 0 16) as (hb & -> & Lh & _); try lia. cbn [bind].
+  destruct (bhdr_deserialize_ok hb) as (h & ->); [unfold block_header_size; lia|]. cbn [bind].
+  apply IH. unfold skipN. destruct (lenN rest <=? 16 + bh_csize h) eqn:C.
+  - simpl. unfold lenN in L. lia.
+  - rewrite skipn_length. unfold lenN in L. lia.
+Qed.
+
+Theorem scan_total b : good (scan_block_headers b).
+Proof.
+  unfold scan_block_headers.
+  pose proof (new_file_reader_good b) as G.
+  destruct (fst (new_file_reader b)) as [op| | |]; simpl in G; try contradiction; try exact I.
+  apply scan_loop_good, blocks_fuel_enough.
+Qed.
+
+Theorem read_swamp_name_total pol b : good (read_swamp_name pol b).
+Proof.
+  unfold read_swamp_name.
+  pose proof (new_file_reader_good b) as G.
+  destruct (fst (new_file_reader b)) as [op| | |]; simpl in G; try contradiction; try exact I.
+  destruct (fh_version (o_hdr op) =? version3); [exact I|].
+  pose proof (read_file_total pol b) as T.
+  destruct (fst (read_file_bytes pol b)); simpl in *; auto.
+Qed.
